@@ -22,6 +22,7 @@ fn cases(_ob: &str) -> Vec<String> {
     for i in 0..valid().len() { out.push(format!("prefix:{}:0", i)); }
     for t in ["(a b)", "\"ab\"", "?a", "\"\\u03bb\"", "[1 2]", "(a . b)", "1.5e3"] { out.push(format!("eprefix:{}", crate::hex(t.as_bytes()))); }
     for i in 0..garbage().len() { for o in 0..2 { out.push(format!("loc:{}:{}", i, o)); } }
+    for k in 0..4 { out.push(format!("ioerr:{}", k)); }
     out
 }
 
@@ -59,6 +60,19 @@ fn check(case: &str) -> Option<String> {
                 }
             }
             None
+        }
+        "ioerr" => {
+            // the reader itself fails: the parse error is I/O-category and converts back to the ORIGINAL io::Error
+            struct Failing { data: &'static [u8], pos: usize, at: usize }
+            impl io::Read for Failing { fn read(&mut self, buf: &mut [u8]) -> io::Result<usize> {
+                if self.pos >= self.at { return Err(io::Error::new(io::ErrorKind::ConnectionReset, "injected")); }
+                let n = 1.min(buf.len()).min(self.data.len() - self.pos).min(self.at - self.pos); buf[..n].copy_from_slice(&self.data[self.pos..self.pos + n]); self.pos += n; Ok(n) } }
+            let at = p.get(1)?.parse::<usize>().ok()?;
+            match lexpr::from_reader(Failing { data: b"(a b c)", pos: 0, at }) {
+                Err(e) => { if e.classify() != Category::Io { return Some(format!("reader failing at offset {}: error category {:?}", at, e.classify())); }
+                            let k = io::Error::from(e).kind(); if k != io::ErrorKind::ConnectionReset { return Some(format!("reader failing with ConnectionReset at offset {}: io::Error::from(parse error) has kind {:?}, documented: the original error", at, k)); } None }
+                Ok(v) => Some(format!("reader failing at offset {} parsed as {}", at, v)),
+            }
         }
         "loc" => {
             let text = garbage().get(p.get(1)?.parse::<usize>().ok()?)?.as_bytes().to_vec();
